@@ -183,3 +183,91 @@ def kernel_roots_called_from(model, func_infos):
                 if nm in funcs:
                     out.add(nm)
     return out
+
+
+def matches_spec(model, module, name, spec_src, prune=True):
+    """Normal-form equality of the repo's top-level function `name` of `module` with a reference implementation written in
+    the rule (same parameter order; local names, temporaries, layout and the N1-N16 rewrites are immaterial).
+    -> (equal, description of the first difference)."""
+    t, nz = port_nf(model, name, module, prune)
+    pm = model.module(module)
+    funcs = toplevel_funcs(pm.tree)
+    known = set(funcs)
+    for star in pm.stars:
+        if star in model.modules:
+            known |= set(toplevel_funcs(model.modules[star].tree))
+    tree = ast.parse(_dedent(spec_src))
+    fn = [n for n in tree.body if isinstance(n, ast.FunctionDef)]
+    if len(fn) != 1:
+        raise AnalysisError('spec for %s must define exactly one function' % name)
+    fn[0].name = name                      # same shape contracts / recursion naming as the repo function
+    sz = Normalizer(fn[0], SHAPES, known, None, True, toplevel_names(pm.tree))
+    sz.prune_loops = prune
+    try:
+        s = sz.run()
+    except Unsupported as e:
+        raise AnalysisError('spec of %s cannot be normalised: %s' % (name, e))
+    if s == t:
+        return True, 'equal'
+    from .normal import first_diff, show
+    d = first_diff(t, s)
+    if d is None:
+        return False, 'normal forms differ'
+    path, a, b = d
+    return False, 'repo: %s  |  spec: %s' % (show(a)[:150], show(b)[:150])
+
+
+def _dedent(s):
+    import textwrap
+    return textwrap.dedent(s).strip() + '\n'
+
+
+def func_nf(model, fi, prune=True):
+    """Normal form of any function / method known to the model (FuncInfo)."""
+    key = (model.digest, fi.key, prune)
+    if key in _NF_CACHE:
+        return _NF_CACHE[key]
+    pm = fi.module
+    funcs = toplevel_funcs(pm.tree)
+    known = set(funcs)
+    for star in pm.stars:
+        if star in model.modules:
+            known |= set(toplevel_funcs(model.modules[star].tree))
+    nz = Normalizer(fi.node, SHAPES, known, None, True, toplevel_names(pm.tree))
+    nz.prune_loops = prune
+    try:
+        t = nz.run()
+    except Unsupported as e:
+        raise AnalysisError('%s can no longer be normalised: %s' % (fi.qualname, e))
+    _NF_CACHE[key] = (t, nz)
+    return t, nz
+
+
+def fi_matches_spec(model, fi, spec_src, prune=True):
+    """As matches_spec, for any function or method (the spec names `self` like the method does)."""
+    t, nz = func_nf(model, fi, prune)
+    pm = fi.module
+    funcs = toplevel_funcs(pm.tree)
+    known = set(funcs)
+    for star in pm.stars:
+        if star in model.modules:
+            known |= set(toplevel_funcs(model.modules[star].tree))
+    tree = ast.parse(_dedent(spec_src))
+    fn = [n for n in tree.body if isinstance(n, ast.FunctionDef)]
+    if len(fn) != 1:
+        raise AnalysisError('spec for %s must define exactly one function' % fi.qualname)
+    fn[0].name = fi.node.name
+    sz = Normalizer(fn[0], SHAPES, known, None, True, toplevel_names(pm.tree))
+    sz.prune_loops = prune
+    try:
+        s = sz.run()
+    except Unsupported as e:
+        raise AnalysisError('spec of %s cannot be normalised: %s' % (fi.qualname, e))
+    if s == t:
+        return True, 'equal'
+    from .normal import first_diff, show
+    d = first_diff(t, s)
+    if d is None:
+        return False, 'normal forms differ'
+    path, a, b = d
+    return False, 'repo: %s  |  spec: %s' % (show(a)[:150], show(b)[:150])
